@@ -1,4 +1,5 @@
 """C11 - validation accepts exactly the valid raw boards and normalises them consistently."""
+from . import shared
 from . import validaterules, hashrules
 
 
@@ -18,3 +19,4 @@ def run(ctx):
     validaterules.normalise_rule(ctx, facts, "V2")
     validaterules.occupancy_loop_rule(ctx, facts, "V3")
     hashrules.from_scratch_rule(ctx, facts, "V3h")
+    shared.attack_component(ctx, facts, "V4", "the OpponentKingAttacked condition is do_is_cell_attacked on the opponent king")
